@@ -50,6 +50,9 @@ func (ex *Exec) runInits(st *State, fn *ssa.Function) {
 		*st = *rets[0].st
 		st.defers = nil
 	}
+	if ex.initRefs > 0 {
+		st.assume(tLe(num(int64(ex.initRefs)), ex.heapTop()))
+	}
 	for g, n := range ex.prog.stores {
 		if n > 0 {
 			delete(st.cells, ex.gcell(g))
